@@ -450,6 +450,7 @@ def main():
     "non-trivial = the bundle's reference run had a permutation space > 1 (at least one call of "
     "_make_sorted_work_items with >= 2 permutable nodes)")
   import tempfile, shutil, glob
+  eng.new_engine()      # warm-up in the parent (astroid import state is inherited by the workers)
   stats_dir = tempfile.mkdtemp(prefix="verif-c06-")
   os.environ["C06_STATS_DIR"] = stats_dir
   try:
